@@ -288,6 +288,8 @@ type GenCfg struct {
 	FormW []int
 	// EqualPrio: owners may share a priority (outside C01's quantifier; used by C02 only)
 	EqualPrio bool
+	// InvalidPct: probability (percent) of drawing a self-invalid value for a constrained slot
+	InvalidPct int
 }
 
 var editKinds = []string{"create", "change", "grow", "shrink", "reprio", "delete", "orphan", "resubmit"}
@@ -321,6 +323,18 @@ func NewGen(t *sim.Tape, si *world.SchemaInfo, cfg *GenCfg) *Gen {
 	return &Gen{T: t, SI: si, Cfg: cfg, Uni: Universe(si, cfg.Profile)}
 }
 
+// pickLex draws a lexical value of a slot honouring InvalidPct.
+func (g *Gen) pickLex(s Slot) string {
+	if s.NInvalid == 0 {
+		return s.Lex[g.T.Choose(len(s.Lex))]
+	}
+	nv := len(s.Lex) - s.NInvalid
+	if g.T.Bool(g.Cfg.InvalidPct, 100) {
+		return s.Lex[nv+g.T.Choose(s.NInvalid)]
+	}
+	return s.Lex[g.T.Choose(nv)]
+}
+
 func (g *Gen) pickSlotLeaf(m *Model, avoid map[string]bool, hot []Slot) *MLeaf {
 	var s Slot
 	if len(hot) > 0 && g.T.Bool(1, 2) {
@@ -331,8 +345,7 @@ func (g *Gen) pickSlotLeaf(m *Model, avoid map[string]bool, hot []Slot) *MLeaf {
 	if avoid[s.Path.String()] {
 		return nil
 	}
-	lex := s.Lex[g.T.Choose(len(s.Lex))]
-	return NewMLeaf(g.SI, s.Path, lex)
+	return NewMLeaf(g.SI, s.Path, g.pickLex(s))
 }
 
 // hotSlots: slots whose path some live intent defines (to make overlaps dense).
@@ -463,7 +476,7 @@ func (g *Gen) GenIntent(m *Model, usedNames map[string]bool, usedPrios map[int32
 				idx := g.T.Choose(len(is.Leaves))
 				for _, s := range g.Uni {
 					if s.Path.String() == is.Leaves[idx].Key() {
-						is.Leaves[idx] = NewMLeaf(g.SI, s.Path, s.Lex[g.T.Choose(len(s.Lex))])
+						is.Leaves[idx] = NewMLeaf(g.SI, s.Path, g.pickLex(s))
 					}
 				}
 				is.Edit = "reprio+change"
@@ -489,7 +502,7 @@ func (g *Gen) GenIntent(m *Model, usedNames map[string]bool, usedPrios map[int32
 			l := is.Leaves[idx]
 			for _, s := range g.Uni {
 				if s.Path.String() == l.Key() {
-					is.Leaves[idx] = NewMLeaf(g.SI, s.Path, s.Lex[g.T.Choose(len(s.Lex))])
+					is.Leaves[idx] = NewMLeaf(g.SI, s.Path, g.pickLex(s))
 				}
 			}
 		}
